@@ -58,6 +58,16 @@ Section TracerSolve.
     | LFail => ((s, tr), Raise KeyError)
     end.
 
+  (* TracerMixin.trace_period(period, label, trace=, reset=): the public way to add a snapshot by period label —
+     _locate_period_in_span, KeyError unless it answers with an int, then trace_t.  (trace_t itself never looks at the
+     truthiness of `trace`: None / False mean "the default names" there.) *)
+  Definition trace_period_M (lab : L) (label : tlabel) (v : vals num) (tr : traces num) : traces num * option exn :=
+    match locate lab with
+    | LInt t => trace_t num cfg t label a reset v tr
+    | LOther => (tr, Some KeyError)
+    | LFail => (tr, Some KeyError)
+    end.
+
   (* the positions solve() is going to visit (none when it rejects its arguments) *)
   Definition solve_targets (d : mdesc) (o : opts num) (span : list L) (start end_ : option L) : list Z :=
     if max_iter o <? min_iter o then [] else
@@ -68,3 +78,10 @@ Section TracerSolve.
     | Ret (_, ps) => map fst ps
     end.
 End TracerSolve.
+
+(* TracerMixin.__init__ (after the base class has built the container): the name under which the Traces are stored must
+   be free — DuplicateNameError if TRACE_NAME is already in `index` (a variable of the model, 'status', 'iterations') —
+   then the name is appended to `index` and one empty Trace per period is created.  Names are numbers here. *)
+Definition tracer_init (num : Type) (index : list nat) (trace_name : nat) (n : nat) : outcome (list nat * traces num) :=
+  if existsb (Nat.eqb trace_name) index then Raise DuplicateNameError
+  else Ret (index ++ [trace_name], repeat (empty_trace num) n).
